@@ -90,6 +90,16 @@ theorem rewrite_preserves_compiled_state {σ : Type} (app : SOp → σ → σ)
   exact denote_eq_of_flat_eq app hcomm c' c hg'.1 hgood.1 (good_arity1 hg') (good_arity1 hgood)
     (good_qNonempty hg') (good_qNonempty hgood) seq' seq hl' hl (h.flat_eq hgood) s
 
+/-- the same for any finite chain of rewrites (`Commute.RewritesStar`; sanity is preserved along the chain) -/
+theorem rewrite_chain_preserves_compiled_state {σ : Type} (app : SOp → σ → σ)
+    (hcomm : ∀ a b : SOp, (∀ r, r ∈ a.regs → r ∉ b.regs) → ∀ s, app a (app b s) = app b (app a s))
+    (c c' : Circuit) (hgood : c.Good) (h : Commute.RewritesStar c c') (seq seq' : List Nat)
+    (hl : c.isLinearExtension seq = true) (hl' : c'.isLinearExtension seq' = true) (s : σ) :
+    runSeq app (c'.sops seq') s = runSeq app (c.sops seq) s := by
+  have hg' := h.good hgood
+  exact denote_eq_of_flat_eq app hcomm c' c hg'.1 hgood.1 (good_arity1 hg') (good_arity1 hgood)
+    (good_qNonempty hg') (good_qNonempty hgood) seq' seq hl' hl (h.flat_eq hgood) s
+
 /-! ## 2b. the commutation hypothesis discharged: the verified stabilizer semantics
 
   `Commute.appG ne np : SOp → GSt ne np → GSt ne np` (Proofs/CommuteSem) is the semantics of one operation of the compile
@@ -122,6 +132,17 @@ theorem compile_independent_of_topological_order_stab (ne np : Nat) (c : Circuit
     runSeq (Commute.appG ne np) (c.sops seq1) s = runSeq (Commute.appG ne np) (c.sops seq2) s :=
   compile_independent_of_topological_order (Commute.appG ne np) (Commute.appG_comm ne np) c hgood seq1 seq2 hl1 hl2 s
 
+/-- for any finite chain of the five rewrites (`Commute.RewritesStar`) —
+    **copying, unwrapping, grouping, removing identities and attaching an empty noise map do not change the stabilizer
+    state the circuit compiles to**, whatever topological orders the two compilations use, for every assignment of
+    outcomes to the measuring operations (named by their position on the wire of the measured qubit, which the rewrites
+    preserve) -/
+theorem rewrite_chain_preserves_compiled_state_stab (ne np : Nat) (c c' : Circuit) (hgood : c.Good) (h : Commute.RewritesStar c c')
+    (seq seq' : List Nat) (hl : c.isLinearExtension seq = true) (hl' : c'.isLinearExtension seq' = true)
+    (s : Commute.GSt ne np) :
+    runSeq (Commute.appG ne np) (c'.sops seq') s = runSeq (Commute.appG ne np) (c.sops seq) s :=
+  rewrite_chain_preserves_compiled_state (Commute.appG ne np) (Commute.appG_comm ne np) c c' hgood h seq seq' hl hl' s
+
 /-- **copying, unwrapping, grouping, removing identities and attaching an empty noise map do not change the stabilizer
     state the circuit compiles to**, whatever topological orders the two compilations use, for every assignment of
     outcomes to the measuring operations (named by their position on the wire of the measured qubit, which the rewrites
@@ -130,18 +151,27 @@ theorem rewrite_preserves_compiled_state_stab (ne np : Nat) (c c' : Circuit) (hg
     (seq seq' : List Nat) (hl : c.isLinearExtension seq = true) (hl' : c'.isLinearExtension seq' = true)
     (s : Commute.GSt ne np) :
     runSeq (Commute.appG ne np) (c'.sops seq') s = runSeq (Commute.appG ne np) (c.sops seq) s :=
-  rewrite_preserves_compiled_state (Commute.appG ne np) (Commute.appG_comm ne np) c c' hgood h seq seq' hl hl' s
+  rewrite_chain_preserves_compiled_state_stab ne np c c' hgood (Commute.RewritesStar.single h) seq seq' hl hl' s
+
+/-- for any finite chain of the five rewrites (`Commute.RewritesStar`) —
+    read on the compile loop proper: started in `|0…0⟩` with the circuit's own register counts, the rewritten circuit
+    ends in the same stabilizer group as the original (or both runs are impossible for that outcome assignment) -/
+theorem rewrite_chain_preserves_compiled_group (c c' : Circuit) (hgood : c.Good) (h : Commute.RewritesStar c c') (seq seq' : List Nat)
+    (hl : c.isLinearExtension seq = true) (hl' : c'.isLinearExtension seq' = true) (sc : Commute.Script) :
+    runSeq (Commute.appRaw c.ne c.np) (c'.sops seq') (some (TabSpec.gstate (Tab.ket0 (c.ne + c.np)), sc)) =
+      runSeq (Commute.appRaw c.ne c.np) (c.sops seq) (some (TabSpec.gstate (Tab.ket0 (c.ne + c.np)), sc)) := by
+  have := rewrite_chain_preserves_compiled_state_stab c.ne c.np c c' hgood h seq seq' hl hl' (Commute.GSt.init c.ne c.np sc)
+  have h2 := congrArg Subtype.val this
+  rw [Commute.runSeq_appG_val, Commute.runSeq_appG_val] at h2
+  exact h2
 
 /-- read on the compile loop proper: started in `|0…0⟩` with the circuit's own register counts, the rewritten circuit
     ends in the same stabilizer group as the original (or both runs are impossible for that outcome assignment) -/
 theorem rewrite_preserves_compiled_group (c c' : Circuit) (hgood : c.Good) (h : Rewrites c c') (seq seq' : List Nat)
     (hl : c.isLinearExtension seq = true) (hl' : c'.isLinearExtension seq' = true) (sc : Commute.Script) :
     runSeq (Commute.appRaw c.ne c.np) (c'.sops seq') (some (TabSpec.gstate (Tab.ket0 (c.ne + c.np)), sc)) =
-      runSeq (Commute.appRaw c.ne c.np) (c.sops seq) (some (TabSpec.gstate (Tab.ket0 (c.ne + c.np)), sc)) := by
-  have := rewrite_preserves_compiled_state_stab c.ne c.np c c' hgood h seq seq' hl hl' (Commute.GSt.init c.ne c.np sc)
-  have h2 := congrArg Subtype.val this
-  rw [Commute.runSeq_appG_val, Commute.runSeq_appG_val] at h2
-  exact h2
+      runSeq (Commute.appRaw c.ne c.np) (c.sops seq) (some (TabSpec.gstate (Tab.ket0 (c.ne + c.np)), sc)) :=
+  rewrite_chain_preserves_compiled_group c c' hgood (Commute.RewritesStar.single h) seq seq' hl hl' sc
 
 /-! ## 2c. the compile loop of the stabilizer backend refines that semantics
 
@@ -207,11 +237,12 @@ theorem compiled_tableau_independent_of_topological_order (c : Circuit) (hgood :
   show (TabSpec.gstate s1.t).G P ↔ (TabSpec.gstate s2.t).G P
   rw [e'']
 
-/-- **the tableau the stabilizer backend compiles a rewritten circuit to**: the original and the copied / unwrapped /
+/-- for any finite chain of the five rewrites (`Commute.RewritesStar`) —
+    **the tableau the stabilizer backend compiles a rewritten circuit to**: the original and the copied / unwrapped /
     grouped / identity-free / empty-noise-map circuit, each compiled along any topological order under any measurement
     setting, with every measuring operation recording the same outcome in both runs, end in tableaux with the same signed
     stabilizer group -/
-theorem rewrite_preserves_compiled_tableau (c c' : Circuit) (hgood : c.Good) (har : Commute.ArityOk c) (h : Rewrites c c')
+theorem rewrite_chain_preserves_compiled_tableau (c c' : Circuit) (hgood : c.Good) (har : Commute.ArityOk c) (h : Commute.RewritesStar c c')
     (seq seq' : List Nat) (hl : c.isLinearExtension seq = true) (hl' : c'.isLinearExtension seq' = true)
     (d d' : Det) (script script' : List Bool) (s s' : RunState)
     (h1 : stabRun c.ne c.np d script ((c.sops seq).map Commute.toCOp) = some s)
@@ -223,11 +254,11 @@ theorem rewrite_preserves_compiled_tableau (c c' : Circuit) (hgood : c.Good) (ha
   have hne : c'.ne = c.ne := by simp only [Circuit.flat, Prod.mk.injEq] at hflat; exact hflat.1
   have hnp : c'.np = c.np := by simp only [Circuit.flat, Prod.mk.injEq] at hflat; exact hflat.2.1
   have r1 := (Commute.stabRun_refines c hgood har seq d script s h1).2 (fun _ => [])
-  have r2 := (Commute.stabRun_refines c' (h.good hgood) (Commute.Rewrites.arityOk hgood har h) seq' d' script' s' h2).2
+  have r2 := (Commute.stabRun_refines c' (h.good hgood) (h.arityOk hgood har) seq' d' script' s' h2).2
     (fun _ => [])
   rw [hne, hnp] at r2
   rw [hne, hnp] at hout
-  have e := rewrite_preserves_compiled_group c c' hgood h seq seq' hl hl'
+  have e := rewrite_chain_preserves_compiled_group c c' hgood h seq seq' hl hl'
     (Commute.feed c.ne c.np (c.sops seq) s.outs (fun _ => []))
   have e'' : some (TabSpec.gstate s.t, (fun _ => [] : Commute.Script)) = some (TabSpec.gstate s'.t, fun _ => []) := by
     rw [← r1, ← r2, ← hout]; exact e.symm
@@ -235,6 +266,21 @@ theorem rewrite_preserves_compiled_tableau (c c' : Circuit) (hgood : c.Good) (ha
   intro P
   show (TabSpec.gstate s.t).G P ↔ (TabSpec.gstate s'.t).G P
   rw [e'']
+
+/-- **the tableau the stabilizer backend compiles a rewritten circuit to**: the original and the copied / unwrapped /
+    grouped / identity-free / empty-noise-map circuit, each compiled along any topological order under any measurement
+    setting, with every measuring operation recording the same outcome in both runs, end in tableaux with the same signed
+    stabilizer group -/
+theorem rewrite_preserves_compiled_tableau (c c' : Circuit) (hgood : c.Good) (har : Commute.ArityOk c) (h : Rewrites c c')
+    (seq seq' : List Nat) (hl : c.isLinearExtension seq = true) (hl' : c'.isLinearExtension seq' = true)
+    (d d' : Det) (script script' : List Bool) (s s' : RunState)
+    (h1 : stabRun c.ne c.np d script ((c.sops seq).map Commute.toCOp) = some s)
+    (h2 : stabRun c'.ne c'.np d' script' ((c'.sops seq').map Commute.toCOp) = some s')
+    (hout : Commute.feed c.ne c.np (c.sops seq) s.outs (fun _ => []) =
+      Commute.feed c'.ne c'.np (c'.sops seq') s'.outs (fun _ => [])) :
+    ∀ P, TabSpec.Grp s.t P ↔ TabSpec.Grp s'.t P :=
+  rewrite_chain_preserves_compiled_tableau c c' hgood har (Commute.RewritesStar.single h)
+    seq seq' hl hl' d d' script script' s s' h1 h2 hout
 
 /-- **for every run along one topological order there is a run along any other one that records the same outcome at every
     measuring operation, and it ends in the same stabilizer group** — so the hypothesis `hout` of
@@ -263,10 +309,11 @@ theorem compiled_run_exists_in_every_topological_order (c : Circuit) (hgood : c.
   show (TabSpec.gstate s1.t).G P ↔ (TabSpec.gstate s2.t).G P
   rw [hg]
 
-/-- the same for the rewrites: for every run of the compile loop on the original circuit there is a run on the copied /
+/-- for any finite chain of the five rewrites (`Commute.RewritesStar`) —
+    the same for the rewrites: for every run of the compile loop on the original circuit there is a run on the copied /
     unwrapped / grouped / identity-free / empty-noise-map circuit (any topological orders) that records the same outcome at
     every measuring operation and ends in the same signed stabilizer group -/
-theorem compiled_run_exists_after_rewrite (c c' : Circuit) (hgood : c.Good) (har : Commute.ArityOk c) (h : Rewrites c c')
+theorem compiled_run_exists_after_rewrite_chain (c c' : Circuit) (hgood : c.Good) (har : Commute.ArityOk c) (h : Commute.RewritesStar c c')
     (seq seq' : List Nat) (hl : c.isLinearExtension seq = true) (hl' : c'.isLinearExtension seq' = true)
     (d : Det) (script : List Bool) (s : RunState)
     (h1 : stabRun c.ne c.np d script ((c.sops seq).map Commute.toCOp) = some s) :
@@ -279,15 +326,29 @@ theorem compiled_run_exists_after_rewrite (c c' : Circuit) (hgood : c.Good) (har
   have hne : c'.ne = c.ne := by simp only [Circuit.flat, Prod.mk.injEq] at hflat; exact hflat.1
   have hnp : c'.np = c.np := by simp only [Circuit.flat, Prod.mk.injEq] at hflat; exact hflat.2.1
   have r1 := (Commute.stabRun_refines c hgood har seq d script s h1).2 (fun _ => [])
-  have e := rewrite_preserves_compiled_group c c' hgood h seq seq' hl hl'
+  have e := rewrite_chain_preserves_compiled_group c c' hgood h seq seq' hl hl'
     (Commute.feed c.ne c.np (c.sops seq) s.outs (fun _ => []))
   rw [r1, ← hne, ← hnp] at e
-  obtain ⟨script', s', hs', hg, hF⟩ := Commute.stabRun_complete c' (h.good hgood) (Commute.Rewrites.arityOk hgood har h)
+  obtain ⟨script', s', hs', hg, hF⟩ := Commute.stabRun_complete c' (h.good hgood) (h.arityOk hgood har)
     seq' _ _ e
   refine ⟨script', s', hs', ?_, fun P => ?_⟩
   · rw [← hF, hne, hnp]
   · show (TabSpec.gstate s.t).G P ↔ (TabSpec.gstate s'.t).G P
     rw [hg]
+
+/-- the same for the rewrites: for every run of the compile loop on the original circuit there is a run on the copied /
+    unwrapped / grouped / identity-free / empty-noise-map circuit (any topological orders) that records the same outcome at
+    every measuring operation and ends in the same signed stabilizer group -/
+theorem compiled_run_exists_after_rewrite (c c' : Circuit) (hgood : c.Good) (har : Commute.ArityOk c) (h : Rewrites c c')
+    (seq seq' : List Nat) (hl : c.isLinearExtension seq = true) (hl' : c'.isLinearExtension seq' = true)
+    (d : Det) (script : List Bool) (s : RunState)
+    (h1 : stabRun c.ne c.np d script ((c.sops seq).map Commute.toCOp) = some s) :
+    ∃ (script' : List Bool) (s' : RunState),
+      stabRun c'.ne c'.np .prob script' ((c'.sops seq').map Commute.toCOp) = some s' ∧
+      Commute.feed c.ne c.np (c.sops seq) s.outs (fun _ => []) =
+        Commute.feed c'.ne c'.np (c'.sops seq') s'.outs (fun _ => []) ∧
+      ∀ P, TabSpec.Grp s.t P ↔ TabSpec.Grp s'.t P :=
+  compiled_run_exists_after_rewrite_chain c c' hgood har (Commute.RewritesStar.single h) seq seq' hl hl' d script s h1
 
 /-- the same from an arbitrary valid initial tableau (`compile(circuit, initial_state)`): two runs of the compile loop from
     `t0` along two linear extensions in which every measuring operation recorded the same outcome end in the same signed
@@ -352,10 +413,11 @@ theorem gate_only_compile_independent_of_topological_order (c : Circuit) (hgood 
   have e' := congrArg Subtype.val e
   exact (Commute.runSeq_appTG_val _ _ _ _).symm.trans (e'.trans (Commute.runSeq_appTG_val _ _ _ _))
 
-/-- **a gate-only circuit and its copy / unwrapped / grouped / identity-free / empty-noise-map version compile to literally
+/-- for any finite chain of the five rewrites (`Commute.RewritesStar`) —
+    **a gate-only circuit and its copy / unwrapped / grouped / identity-free / empty-noise-map version compile to literally
     the same run state**, whatever topological orders the two compilations use -/
-theorem gate_only_rewrite_preserves_compiled_tableau (c c' : Circuit) (hgood : c.Good) (har : Commute.ArityOk c)
-    (hgates : Commute.GateOnly c) (h : Rewrites c c') (seq seq' : List Nat) (hl : c.isLinearExtension seq = true)
+theorem gate_only_rewrite_chain_preserves_compiled_tableau (c c' : Circuit) (hgood : c.Good) (har : Commute.ArityOk c)
+    (hgates : Commute.GateOnly c) (h : Commute.RewritesStar c c') (seq seq' : List Nat) (hl : c.isLinearExtension seq = true)
     (hl' : c'.isLinearExtension seq' = true) (d : Det) (script : List Bool) :
     stabRun c'.ne c'.np d script ((c'.sops seq').map Commute.toCOp) =
       stabRun c.ne c.np d script ((c.sops seq).map Commute.toCOp) := by
@@ -363,14 +425,24 @@ theorem gate_only_rewrite_preserves_compiled_tableau (c c' : Circuit) (hgood : c
   have hne : c.ne = c'.ne := by simp only [Circuit.flat, Prod.mk.injEq] at hflat; exact hflat.1.symm
   have hnp : c.np = c'.np := by simp only [Circuit.flat, Prod.mk.injEq] at hflat; exact hflat.2.1.symm
   rw [← hne, ← hnp,
-    Commute.stabRun_eq_runSeq c' (h.good hgood) (Commute.Rewrites.arityOk hgood har h)
-      (Commute.Rewrites.gateOnly hgood hgates h) seq' d script c.ne c.np hne hnp,
+    Commute.stabRun_eq_runSeq c' (h.good hgood) (h.arityOk hgood har)
+      (h.gateOnly hgood hgates) seq' d script c.ne c.np hne hnp,
     Commute.stabRun_eq_runSeq c hgood har hgates seq d script c.ne c.np rfl rfl]
-  have e := rewrite_preserves_compiled_state (Commute.appTG c.ne c.np) (Commute.appTG_comm c.ne c.np) c c' hgood h
+  have e := rewrite_chain_preserves_compiled_state (Commute.appTG c.ne c.np) (Commute.appTG_comm c.ne c.np) c c' hgood h
     seq seq' hl hl' ⟨some { t := Tab.ket0 (c.ne + c.np), writes := [], script := script, rand := [], outs := [] },
       fun s' h => by cases h; rfl⟩
   have e' := congrArg Subtype.val e
   exact (Commute.runSeq_appTG_val _ _ _ _).symm.trans (e'.trans (Commute.runSeq_appTG_val _ _ _ _))
+
+/-- **a gate-only circuit and its copy / unwrapped / grouped / identity-free / empty-noise-map version compile to literally
+    the same run state**, whatever topological orders the two compilations use -/
+theorem gate_only_rewrite_preserves_compiled_tableau (c c' : Circuit) (hgood : c.Good) (har : Commute.ArityOk c)
+    (hgates : Commute.GateOnly c) (h : Rewrites c c') (seq seq' : List Nat) (hl : c.isLinearExtension seq = true)
+    (hl' : c'.isLinearExtension seq' = true) (d : Det) (script : List Bool) :
+    stabRun c'.ne c'.np d script ((c'.sops seq').map Commute.toCOp) =
+      stabRun c.ne c.np d script ((c.sops seq).map Commute.toCOp) :=
+  gate_only_rewrite_chain_preserves_compiled_tableau c c' hgood har hgates (Commute.RewritesStar.single h)
+    seq seq' hl hl' d script
 
 /-! ## 2e. the classical record
 
@@ -423,6 +495,18 @@ theorem compiled_record_independent_of_topological_order (c : Circuit) (hgood : 
     rw [e3.1]
   · rw [Commute.finalRecord_eq, Commute.finalRecord_eq, e3.2]
 
+/-- for any finite chain of the five rewrites (`Commute.RewritesStar`) —
+    **the rewrites preserve stabilizer state and classical record**: for a sane circuit whose measuring operations lie on the
+    classical wire they write, every rewrite keeps the operations on every classical wire (`Commute.Rewrites.cflat`), so the
+    rewritten circuit, along any of its topological orders, gives the same state of the semantics with record -/
+theorem rewrite_chain_preserves_state_and_record_stab (ne np : Nat) (c c' : Circuit) (hgood : c.Good) (hthr : Commute.CThreaded c)
+    (hca : Commute.CArity c) (h : Commute.RewritesStar c c') (seq seq' : List Nat) (hl : c.isLinearExtension seq = true)
+    (hl' : c'.isLinearExtension seq' = true) (s : Commute.CSt ne np) :
+    runSeq (Commute.appC ne np) (c'.sops seq') s = runSeq (Commute.appC ne np) (c.sops seq) s :=
+  same_wires_same_state Commute.regsC (Commute.appC ne np) (Commute.appC_comm ne np) (c'.sops seq') (c.sops seq)
+    (Commute.regsC_ne_nil c' (h.good hgood) seq') (Commute.regsC_ne_nil c hgood seq)
+    (Commute.chain_proj_regsC_eq c c' hgood hthr hca h seq seq' hl hl') s
+
 /-- **the rewrites preserve stabilizer state and classical record**: for a sane circuit whose measuring operations lie on the
     classical wire they write, every rewrite keeps the operations on every classical wire (`Commute.Rewrites.cflat`), so the
     rewritten circuit, along any of its topological orders, gives the same state of the semantics with record -/
@@ -430,15 +514,14 @@ theorem rewrite_preserves_state_and_record_stab (ne np : Nat) (c c' : Circuit) (
     (hca : Commute.CArity c) (h : Rewrites c c') (seq seq' : List Nat) (hl : c.isLinearExtension seq = true)
     (hl' : c'.isLinearExtension seq' = true) (s : Commute.CSt ne np) :
     runSeq (Commute.appC ne np) (c'.sops seq') s = runSeq (Commute.appC ne np) (c.sops seq) s :=
-  same_wires_same_state Commute.regsC (Commute.appC ne np) (Commute.appC_comm ne np) (c'.sops seq') (c.sops seq)
-    (Commute.regsC_ne_nil c' (h.good hgood) seq') (Commute.regsC_ne_nil c hgood seq)
-    (Commute.rewrites_proj_regsC_eq c c' hgood hthr hca h seq seq' hl hl') s
+  rewrite_chain_preserves_state_and_record_stab ne np c c' hgood hthr hca (Commute.RewritesStar.single h) seq seq' hl hl' s
 
-/-- **the classical registers the stabilizer backend ends with are preserved by the rewrites**: original and rewritten
+/-- for any finite chain of the five rewrites (`Commute.RewritesStar`) —
+    **the classical registers the stabilizer backend ends with are preserved by the rewrites**: original and rewritten
     circuit, any topological orders, any measurement settings, every measuring operation recording the same outcome in both
     runs ⇒ same signed stabilizer group and the same final register values -/
-theorem rewrite_preserves_compiled_record (c c' : Circuit) (hgood : c.Good) (har : Commute.ArityOk c)
-    (hthr : Commute.CThreaded c) (hca : Commute.CArity c) (h : Rewrites c c')
+theorem rewrite_chain_preserves_compiled_record (c c' : Circuit) (hgood : c.Good) (har : Commute.ArityOk c)
+    (hthr : Commute.CThreaded c) (hca : Commute.CArity c) (h : Commute.RewritesStar c c')
     (seq seq' : List Nat) (hl : c.isLinearExtension seq = true) (hl' : c'.isLinearExtension seq' = true)
     (d d' : Det) (script script' : List Bool) (s s' : RunState)
     (h1 : stabRun c.ne c.np d script ((c.sops seq).map Commute.toCOp) = some s)
@@ -451,11 +534,11 @@ theorem rewrite_preserves_compiled_record (c c' : Circuit) (hgood : c.Good) (har
   have hnp : c'.np = c.np := by simp only [Circuit.flat, Prod.mk.injEq] at hflat; exact hflat.2.1
   have hnc : c'.nc = c.nc := flat_nc hflat
   have r1 := Commute.stabRun_refines_record c hgood har seq d script s h1 (fun _ => [])
-  have r2 := Commute.stabRun_refines_record c' (h.good hgood) (Commute.Rewrites.arityOk hgood har h) seq' d' script' s' h2
+  have r2 := Commute.stabRun_refines_record c' (h.good hgood) (h.arityOk hgood har) seq' d' script' s' h2
     (fun _ => [])
   rw [hne, hnp] at r2
   rw [hne, hnp] at hout
-  have e := rewrite_preserves_state_and_record_stab c.ne c.np c c' hgood hthr hca h seq seq' hl hl'
+  have e := rewrite_chain_preserves_state_and_record_stab c.ne c.np c c' hgood hthr hca h seq seq' hl hl'
     (Commute.CSt.init c.ne c.np (Commute.feed c.ne c.np (c.sops seq) s.outs (fun _ => [])))
   have e' := congrArg Subtype.val e
   have e'' := (Commute.runSeq_appC_val _ _ _ _).symm.trans (e'.trans (Commute.runSeq_appC_val _ _ _ _))
@@ -467,6 +550,21 @@ theorem rewrite_preserves_compiled_record (c c' : Circuit) (hgood : c.Good) (har
   · show (TabSpec.gstate s.t).G P ↔ (TabSpec.gstate s'.t).G P
     rw [e3.1]
   · rw [Commute.finalRecord_eq, Commute.finalRecord_eq, e3.2, hnc]
+
+/-- **the classical registers the stabilizer backend ends with are preserved by the rewrites**: original and rewritten
+    circuit, any topological orders, any measurement settings, every measuring operation recording the same outcome in both
+    runs ⇒ same signed stabilizer group and the same final register values -/
+theorem rewrite_preserves_compiled_record (c c' : Circuit) (hgood : c.Good) (har : Commute.ArityOk c)
+    (hthr : Commute.CThreaded c) (hca : Commute.CArity c) (h : Rewrites c c')
+    (seq seq' : List Nat) (hl : c.isLinearExtension seq = true) (hl' : c'.isLinearExtension seq' = true)
+    (d d' : Det) (script script' : List Bool) (s s' : RunState)
+    (h1 : stabRun c.ne c.np d script ((c.sops seq).map Commute.toCOp) = some s)
+    (h2 : stabRun c'.ne c'.np d' script' ((c'.sops seq').map Commute.toCOp) = some s')
+    (hout : Commute.feed c.ne c.np (c.sops seq) s.outs (fun _ => []) =
+      Commute.feed c'.ne c'.np (c'.sops seq') s'.outs (fun _ => [])) :
+    (∀ P, TabSpec.Grp s.t P ↔ TabSpec.Grp s'.t P) ∧ finalRecord c.nc s.writes = finalRecord c'.nc s'.writes :=
+  rewrite_chain_preserves_compiled_record c c' hgood har hthr hca (Commute.RewritesStar.single h)
+    seq seq' hl hl' d d' script script' s s' h1 h2 hout
 
 /-! ## 2e′. the probability of the outcome assignment
 
@@ -503,10 +601,11 @@ theorem compiled_outcome_probability_independent_of_topological_order (c : Circu
   simp only [Option.some.injEq, Prod.mk.injEq, true_and] at e3
   exact e3.2
 
-/-- the same for the rewrites: original and rewritten circuit, same outcome at every measuring operation ⇒ the same number
+/-- for any finite chain of the five rewrites (`Commute.RewritesStar`) —
+    the same for the rewrites: original and rewritten circuit, same outcome at every measuring operation ⇒ the same number
     of random measurements, i.e. the same probability of that outcome assignment -/
-theorem rewrite_preserves_outcome_probability (c c' : Circuit) (hgood : c.Good) (har : Commute.ArityOk c)
-    (h : Rewrites c c') (seq seq' : List Nat) (hl : c.isLinearExtension seq = true)
+theorem rewrite_chain_preserves_outcome_probability (c c' : Circuit) (hgood : c.Good) (har : Commute.ArityOk c)
+    (h : Commute.RewritesStar c c') (seq seq' : List Nat) (hl : c.isLinearExtension seq = true)
     (hl' : c'.isLinearExtension seq' = true) (d d' : Det) (script script' : List Bool) (s s' : RunState)
     (h1 : stabRun c.ne c.np d script ((c.sops seq).map Commute.toCOp) = some s)
     (h2 : stabRun c'.ne c'.np d' script' ((c'.sops seq').map Commute.toCOp) = some s')
@@ -517,11 +616,11 @@ theorem rewrite_preserves_outcome_probability (c c' : Circuit) (hgood : c.Good) 
   have hne : c'.ne = c.ne := by simp only [Circuit.flat, Prod.mk.injEq] at hflat; exact hflat.1
   have hnp : c'.np = c.np := by simp only [Circuit.flat, Prod.mk.injEq] at hflat; exact hflat.2.1
   have r1 := Commute.stabRun_refines_rand c hgood har seq d script s h1 (fun _ => [])
-  have r2 := Commute.stabRun_refines_rand c' (h.good hgood) (Commute.Rewrites.arityOk hgood har h) seq' d' script' s' h2
+  have r2 := Commute.stabRun_refines_rand c' (h.good hgood) (h.arityOk hgood har) seq' d' script' s' h2
     (fun _ => [])
   rw [hne, hnp] at r2
   rw [hne, hnp] at hout
-  have e := rewrite_preserves_compiled_state (Commute.appR c.ne c.np) (Commute.appR_comm c.ne c.np) c c' hgood h
+  have e := rewrite_chain_preserves_compiled_state (Commute.appR c.ne c.np) (Commute.appR_comm c.ne c.np) c c' hgood h
     seq seq' hl hl' (Commute.RSt.init c.ne c.np (Commute.feed c.ne c.np (c.sops seq) s.outs (fun _ => [])))
   have e' := congrArg Subtype.val e
   have e'' := (Commute.runSeq_appR_val _ _ _ _).symm.trans (e'.trans (Commute.runSeq_appR_val _ _ _ _))
@@ -530,6 +629,19 @@ theorem rewrite_preserves_outcome_probability (c c' : Circuit) (hgood : c.Good) 
     rw [← r1, ← r2, ← hout]; exact e''
   simp only [Option.some.injEq, Prod.mk.injEq, true_and] at e3
   exact e3.2.symm
+
+/-- the same for the rewrites: original and rewritten circuit, same outcome at every measuring operation ⇒ the same number
+    of random measurements, i.e. the same probability of that outcome assignment -/
+theorem rewrite_preserves_outcome_probability (c c' : Circuit) (hgood : c.Good) (har : Commute.ArityOk c)
+    (h : Rewrites c c') (seq seq' : List Nat) (hl : c.isLinearExtension seq = true)
+    (hl' : c'.isLinearExtension seq' = true) (d d' : Det) (script script' : List Bool) (s s' : RunState)
+    (h1 : stabRun c.ne c.np d script ((c.sops seq).map Commute.toCOp) = some s)
+    (h2 : stabRun c'.ne c'.np d' script' ((c'.sops seq').map Commute.toCOp) = some s')
+    (hout : Commute.feed c.ne c.np (c.sops seq) s.outs (fun _ => []) =
+      Commute.feed c'.ne c'.np (c'.sops seq') s'.outs (fun _ => [])) :
+    s.rand.count true = s'.rand.count true :=
+  rewrite_chain_preserves_outcome_probability c c' hgood har (Commute.RewritesStar.single h)
+    seq seq' hl hl' d d' script script' s s' h1 h2 hout
 
 /-! ## 2f. read as quantum states
 
@@ -551,10 +663,11 @@ theorem compiled_density_matrix_independent_of_topological_order (c : Circuit) (
     (Commute.stabRun_refines c hgood har seq2 d2 script2 s2 h2).1
     (compiled_tableau_independent_of_topological_order c hgood har seq1 seq2 hl1 hl2 d1 d2 script1 script2 s1 s2 h1 h2 hout)
 
-/-- **the rewrites preserve the quantum state the stabilizer backend compiles to**: under the hypotheses of
-    `rewrite_preserves_compiled_tableau` the two final tableaux denote the same density matrix -/
-theorem rewrite_preserves_compiled_density_matrix (c c' : Circuit) (hgood : c.Good) (har : Commute.ArityOk c)
-    (h : Rewrites c c') (seq seq' : List Nat) (hl : c.isLinearExtension seq = true)
+/-- for any finite chain of the five rewrites (`Commute.RewritesStar`) —
+    **the rewrites preserve the quantum state the stabilizer backend compiles to**: under the hypotheses of
+    `rewrite_chain_preserves_compiled_tableau` the two final tableaux denote the same density matrix -/
+theorem rewrite_chain_preserves_compiled_density_matrix (c c' : Circuit) (hgood : c.Good) (har : Commute.ArityOk c)
+    (h : Commute.RewritesStar c c') (seq seq' : List Nat) (hl : c.isLinearExtension seq = true)
     (hl' : c'.isLinearExtension seq' = true) (d d' : Det) (script script' : List Bool) (s s' : RunState)
     (h1 : stabRun c.ne c.np d script ((c.sops seq).map Commute.toCOp) = some s)
     (h2 : stabRun c'.ne c'.np d' script' ((c'.sops seq').map Commute.toCOp) = some s')
@@ -564,10 +677,23 @@ theorem rewrite_preserves_compiled_density_matrix (c c' : Circuit) (hgood : c.Go
   have hflat := h.flat_eq hgood
   have hne : c'.ne = c.ne := by simp only [Circuit.flat, Prod.mk.injEq] at hflat; exact hflat.1
   have hnp : c'.np = c.np := by simp only [Circuit.flat, Prod.mk.injEq] at hflat; exact hflat.2.1
-  have t2 := (Commute.stabRun_refines c' (h.good hgood) (Commute.Rewrites.arityOk hgood har h) seq' d' script' s' h2).1
+  have t2 := (Commute.stabRun_refines c' (h.good hgood) (h.arityOk hgood har) seq' d' script' s' h2).1
   rw [hne, hnp] at t2
   exact Commute.rho_eq_of_grp_eq (Commute.stabRun_refines c hgood har seq d script s h1).1 t2
-    (rewrite_preserves_compiled_tableau c c' hgood har h seq seq' hl hl' d d' script script' s s' h1 h2 hout)
+    (rewrite_chain_preserves_compiled_tableau c c' hgood har h seq seq' hl hl' d d' script script' s s' h1 h2 hout)
+
+/-- **the rewrites preserve the quantum state the stabilizer backend compiles to**: under the hypotheses of
+    `rewrite_preserves_compiled_tableau` the two final tableaux denote the same density matrix -/
+theorem rewrite_preserves_compiled_density_matrix (c c' : Circuit) (hgood : c.Good) (har : Commute.ArityOk c)
+    (h : Rewrites c c') (seq seq' : List Nat) (hl : c.isLinearExtension seq = true)
+    (hl' : c'.isLinearExtension seq' = true) (d d' : Det) (script script' : List Bool) (s s' : RunState)
+    (h1 : stabRun c.ne c.np d script ((c.sops seq).map Commute.toCOp) = some s)
+    (h2 : stabRun c'.ne c'.np d' script' ((c'.sops seq').map Commute.toCOp) = some s')
+    (hout : Commute.feed c.ne c.np (c.sops seq) s.outs (fun _ => []) =
+      Commute.feed c'.ne c'.np (c'.sops seq') s'.outs (fun _ => [])) :
+    Hilbert.rho (c.ne + c.np) (STab.ofTab s.t) = Hilbert.rho (c.ne + c.np) (STab.ofTab s'.t) :=
+  rewrite_chain_preserves_compiled_density_matrix c c' hgood har (Commute.RewritesStar.single h)
+    seq seq' hl hl' d d' script script' s s' h1 h2 hout
 
 /-! ## 3. library calls do not mutate their inputs -/
 
@@ -770,5 +896,31 @@ example : exF.isLinearExtension [1, 2, 3, 4, 5] = true ∧ exF.isLinearExtension
   refine ⟨s1, s2, h1, h2, Commute.grp_of_grpCheck _ _ o1.2, Commute.grp_of_grpCheck _ _ o2.2, ?_, ?_⟩
   · rw [o1.1]; rfl
   · rw [o2.1]; rfl
+
+/-- the example after `unwrap_nodes`, `group_one_qubit_gates` and `remove_identity` -/
+def exC3 : Circuit :=
+  ((exC.unwrapNodes [2, 6]).groupOneQubitGates [⟨.e, 0⟩, ⟨.p, 0⟩, ⟨.c, 0⟩]).removeIdentity []
+
+theorem exC_good : exC.Good := by
+  unfold exC
+  simp only [List.foldl_cons, List.foldl_nil]
+  repeat' (apply Good_addCore)
+  any_goals exact Good_empty 1 1 1
+  all_goals first
+    | (refine ⟨by decide, by decide, by decide, ?_⟩; intro _; exact ⟨⟨_, rfl⟩, rfl⟩)
+    | (refine ⟨by decide, by decide, by decide, ?_⟩; intro h; cases h)
+    | (intro r hr; simp only [List.mem_cons, List.not_mem_nil, or_false] at hr; rcases hr with rfl | rfl <;> decide)
+
+/-- a chain of four rewrites on the example (unwrap, group, remove identities, empty noise map): hypotheses of the
+    `rewrite_chain_…` theorems -/
+example : ∃ c4, exC3.assignNoise [12, 14, 4, 13, 7] = .ok c4 ∧ Commute.RewritesStar exC c4 ∧ c4.flat = exC.flat := by
+  have hok : (okOr (exC3.assignNoise [12, 14, 4, 13, 7])).1 = true := by decide
+  cases hr : exC3.assignNoise [12, 14, 4, 13, 7] with
+  | error e => rw [hr] at hok; cases hok
+  | ok c4 =>
+    have hchain : Commute.RewritesStar exC c4 :=
+      .tail (.tail (.tail (.tail (.refl _) (.unwrap [2, 6])) (.group [⟨.e, 0⟩, ⟨.p, 0⟩, ⟨.c, 0⟩])) (.removeIdentity []))
+        (.assignNoise _ c4 hr)
+    exact ⟨c4, rfl, hchain, hchain.flat_eq exC_good⟩
 
 end Graphiq.C13
